@@ -108,7 +108,7 @@ def register(reg):
             "implies(tabledata.is_piecewise, isinstance(idx(result, 2), L.LiteralInt) and idx(result, 2).value == 0)",
             "implies(not tabledata.is_piecewise, isinstance(idx(result, 2), L.Symbol) and idx(result, 2).name == 'iq')",
         ],
-        properties=["C02", "C03", "C08"], modular=False,
+        properties=["C02", "C03", "C04", "C08"], modular=False,
         mutants=[('qp = self.quadrature_permutation[0]\n            if restriction == "-":\n                qp = self.quadrature_permutation[1]',
                   'qp = self.quadrature_permutation[0]'),
                  ("if tabledata.is_piecewise:\n            iq = 0", "if tabledata.is_uniform:\n            iq = 0")]))
